@@ -25,7 +25,7 @@ def _cap_ok(s):
                                              n == ite(s.seen < s.size, s.seen, s.size), n >= 0))
 
 
-cls('Storage', file=F + 'base.py',
+cls('Storage', file=F + 'base.py', opaque_inv=True,
     fields={'_storage_x': XList, '_storage_y': YList, 'store_targets': TBool, 'size': TInt,
             'stored_samples': TInt, '_algo_wt': TNum, '_algo_l_counter': TNum, 'constant_probability': TNum},
     optional=['store_targets', 'size', 'stored_samples', '_algo_wt', '_algo_l_counter', 'constant_probability'],
@@ -82,7 +82,7 @@ _common_update = {
 # interface contract (what an explainer / imputer may assume of any storage)
 fn('Storage.update', params={'x': InstT, 'y': TVal}, self_cls='Storage', ensures=dict(_common_update),
    ghost_update=_hist_step, modifies=['_storage_x', '_storage_y', 'stored_samples', '_algo_wt', '_algo_l_counter', 'ids'],
-   may_fail=True, assume_only=True,
+   may_fail=True, assume_only=True, counts={'storage_update': lambda c: 1},
    notes='interface; proved for the five concrete update methods')
 
 fn('Storage.__len__', F + 'base.py', src_cls='BaseStorage', self_cls='Storage', pure=True, ret=TInt,
